@@ -45,6 +45,25 @@ theorem allFrom_spec (p : Nat → Bool) (lo n : Nat) (h : allFrom p lo n = true)
     ∀ k, lo ≤ k → k < lo + n → p k = true :=
   allFromF_spec p 64 lo n h
 
+/-- chunked enumeration: `b` chunks of `sz` points starting at chunk index `a` (each chunk is its
+own kernel-checked lemma, so the kernel's caches are released between chunks) -/
+theorem allFrom_chunks (p : Nat → Bool) (lo sz a b : Nat)
+    (h : ∀ c, c < b → allFrom p (lo + sz * (a + c)) sz = true) :
+    ∀ k, lo + sz * a ≤ k → k < lo + sz * (a + b) → p k = true := by
+  intro k h1 h2
+  have hsz : 0 < sz := by
+    rcases Nat.eq_zero_or_pos sz with h0 | h0
+    · subst h0; simp at h1 h2; omega
+    · exact h0
+  have e1 : sz * (a + b) = sz * a + sz * b := Nat.mul_add _ _ _
+  have hq : (k - (lo + sz * a)) / sz < b := by
+    apply Nat.div_lt_of_lt_mul; omega
+  have hdm := Nat.div_add_mod (k - (lo + sz * a)) sz
+  have hml := Nat.mod_lt (k - (lo + sz * a)) hsz
+  have e2 : sz * (a + (k - (lo + sz * a)) / sz) = sz * a + sz * ((k - (lo + sz * a)) / sz) :=
+    Nat.mul_add _ _ _
+  exact allFrom_spec p _ sz (h _ hq) k (by omega) (by omega)
+
 /-- first and last day number of the enumerated range: 1901-01-01 … 2099-12-31 -/
 def dLo : Nat := 15386
 def dHi : Nat := 88069
@@ -62,5 +81,71 @@ def ValidG (g : Ymd) : Prop :=
   1901 ≤ g.y ∧ g.y ≤ 2099 ∧ 1 ≤ g.m ∧ g.m ≤ 12 ∧ 1 ≤ g.d ∧ g.d ≤ Echse.Spec.Cal.monthLen g.y g.m
 
 instance (g : Ymd) : Decidable (ValidG g) := by unfold ValidG; infer_instance
+
+theorem monthLen_le (y m : Nat) : Echse.Spec.Cal.monthLen y m ≤ 31 := by
+  unfold Echse.Spec.Cal.monthLen; split <;> first | omega | (split <;> omega)
+
+/-! ### the per-point checks -/
+open Echse.Spec.Cal
+
+/-- Gregorian, per day number -/
+def chkG (j : Nat) : Bool :=
+  let g := mjd2g j
+  g2mjd g == j && decide (ValidG g) && decide (days g.y g.m g.d = (j : Int) + dayOff)
+    && wdayOfMjd j == wdayGreg g.y g.m g.d
+
+theorem chkG_spec (j : Nat) (h : chkG j = true) :
+    g2mjd (mjd2g j) = j ∧ ValidG (mjd2g j) ∧
+    days (mjd2g j).y (mjd2g j).m (mjd2g j).d = (j : Int) + dayOff ∧
+    wdayOfMjd j = wdayGreg (mjd2g j).y (mjd2g j).m (mjd2g j).d := by
+  simpa only [chkG, Bool.and_eq_true, beq_iff_eq, decide_eq_true_eq, and_assoc] using h
+
+/-- number of (year, month, day-of-month ≤ 31) triples of 1901..2099 -/
+def nDates : Nat := 74028
+
+/-- Gregorian, per date: index `k` ↦ year `1901 + k / 372`, month `k % 372 / 31 + 1`, day `k % 31 + 1` -/
+def chkD (k : Nat) : Bool :=
+  let y := 1901 + k / 372
+  let m := k % 372 / 31 + 1
+  let d := k % 31 + 1
+  !decide (d ≤ monthLen y m) ||
+    (decide (dLo ≤ g2mjd ⟨y, m, d⟩) && decide (g2mjd ⟨y, m, d⟩ ≤ dHi) && mjd2g (g2mjd ⟨y, m, d⟩) == ⟨y, m, d⟩)
+
+theorem chkD_spec (g : Ymd) (hg : ValidG g)
+    (h : chkD ((g.y - 1901) * 372 + (g.m - 1) * 31 + (g.d - 1)) = true) :
+    dLo ≤ g2mjd g ∧ g2mjd g ≤ dHi ∧ mjd2g (g2mjd g) = g := by
+  obtain ⟨h1, h2, h3, h4, h5, h6⟩ := hg
+  have h7 := monthLen_le g.y g.m
+  have ey : 1901 + ((g.y - 1901) * 372 + (g.m - 1) * 31 + (g.d - 1)) / 372 = g.y := by omega
+  have em : ((g.y - 1901) * 372 + (g.m - 1) * 31 + (g.d - 1)) % 372 / 31 + 1 = g.m := by omega
+  have ed : ((g.y - 1901) * 372 + (g.m - 1) * 31 + (g.d - 1)) % 31 + 1 = g.d := by omega
+  simp only [chkD, ey, em, ed, Bool.or_eq_true, Bool.not_eq_true', decide_eq_false_iff_not,
+    Bool.and_eq_true, beq_iff_eq, decide_eq_true_eq] at h
+  rcases h with h | h
+  · exact absurd h6 h
+  · exact ⟨h.1.1, h.1.2, h.2⟩
+
+theorem chkD_index (g : Ymd) (hg : ValidG g) :
+    (g.y - 1901) * 372 + (g.m - 1) * 31 + (g.d - 1) < nDates := by
+  obtain ⟨h1, h2, h3, h4, h5, h6⟩ := hg
+  have h7 := monthLen_le g.y g.m
+  unfold nDates; omega
+
+/-- arithmetic Hijri scale `s` (1..8), per day number -/
+def chkH (s j : Nat) : Bool :=
+  let h := mjd2hij (scalTyp s) (scalEpo s) j
+  hij2mjd (scalTyp s) (scalEpo s) h == j && decide (1 ≤ h.y) && decide (1 ≤ h.m) && decide (h.m ≤ 12)
+    && decide (1 ≤ h.d) && decide (h.d ≤ scaleNdim s h.y h.m)
+    && mjd2hij (scalTyp s) (scalEpo s) (j + 1) == succDate s h
+
+theorem chkH_spec (s j : Nat) (h : chkH s j = true) :
+    hij2mjd (scalTyp s) (scalEpo s) (mjd2hij (scalTyp s) (scalEpo s) j) = j ∧
+    1 ≤ (mjd2hij (scalTyp s) (scalEpo s) j).y ∧
+    1 ≤ (mjd2hij (scalTyp s) (scalEpo s) j).m ∧ (mjd2hij (scalTyp s) (scalEpo s) j).m ≤ 12 ∧
+    1 ≤ (mjd2hij (scalTyp s) (scalEpo s) j).d ∧
+    (mjd2hij (scalTyp s) (scalEpo s) j).d ≤
+      scaleNdim s (mjd2hij (scalTyp s) (scalEpo s) j).y (mjd2hij (scalTyp s) (scalEpo s) j).m ∧
+    mjd2hij (scalTyp s) (scalEpo s) (j + 1) = succDate s (mjd2hij (scalTyp s) (scalEpo s) j) := by
+  simpa only [chkH, Bool.and_eq_true, beq_iff_eq, decide_eq_true_eq, and_assoc] using h
 
 end Echse.Scale
